@@ -190,7 +190,7 @@ func c07gNumUses(c *eng.Ctx) {
 			eng.G(f, `^role\.TokenParams\.TokenNumUses < &te\.NumUses$`, true)), nil)
 	}
 	// with a role that limits uses, creation is reached only after the role's limit was compared
-	create := instrsOf(eng.Calls(f, `vault\.\(\*TokenStore\)\.create$`))
+	create := gcIns(f, `vault\.\(\*TokenStore\)\.create$`)
 	if len(create) > 0 {
 		c.Cut(f, "ts.create (role present)", create, eng.Or(
 			eng.G(f, `^role\.TokenParams\.TokenNumUses == 0$`, true),
@@ -379,61 +379,17 @@ func c07gRenew(c *eng.Ctx) {
 // function all of whose returns are such calls (hasSudoOn := func(p string)
 // bool { return view.SudoPrivilege(ctx, p, tok) }).
 func c07gFwd(v ssa.Value, pred func(*ssa.Call) bool, depth int) bool {
-	cl, ok := v.(*ssa.Call)
-	if !ok || depth > 2 {
-		return false
-	}
-	if pred(cl) {
-		return true
-	}
-	var g *ssa.Function
-	switch x := cl.Call.Value.(type) {
-	case *ssa.MakeClosure:
-		g, _ = x.Fn.(*ssa.Function)
-	case *ssa.Function:
-		if x.Parent() != nil {
-			g = x
-		}
-	}
-	if g == nil {
-		return false
-	}
-	rets := eng.Returns(g)
-	if len(rets) == 0 {
-		return false
-	}
-	for _, r := range rets {
-		if len(r.Results) != 1 || !c07gFwd(r.Results[0], pred, depth+1) {
-			return false
-		}
-	}
-	return true
+	return gcFwdVal(v, func(x ssa.Value) bool { cl, ok := x.(*ssa.Call); return ok && pred(cl) }, depth)
 }
 
 // c07gFwdCondEdges: the edges of the branches of f whose condition is (the
 // negation of) such a call, on which the call's result is want.
 func c07gFwdCondEdges(f *ssa.Function, pred func(*ssa.Call) bool, want bool) []eng.Edge {
-	var out []eng.Edge
-	for _, b := range f.Blocks {
-		ifi := eng.IfOf(b)
-		if ifi == nil {
-			continue
-		}
-		nc := eng.Normalize(ifi.Cond)
-		if !c07gFwd(nc.Val, pred, 0) {
-			continue
-		}
-		succ := 1
-		if nc.Pol == want {
-			succ = 0
-		}
-		out = append(out, eng.Edge{From: b, Succ: succ})
-	}
-	return out
+	return gcFwdCondEdges(f, func(x ssa.Value) bool { cl, ok := x.(*ssa.Call); return ok && pred(cl) }, want)
 }
 
 func c07gIsSudoCall(cl *ssa.Call) bool {
-	return strings.HasSuffix(eng.CalleeName(&cl.Call), "extendedSystemView>.SudoPrivilege")
+	return strings.HasSuffix(nfCallOf(cl).Name, "extendedSystemView>.SudoPrivilege") || strings.HasSuffix(nfCallOf(cl).Name, "extendedSystemView).SudoPrivilege")
 }
 
 // c07gIsNonAssignableTest: slices.Contains(policy.NonAssignablePolicies, x).
